@@ -512,6 +512,23 @@ func analyseParserLoop(c *core.Ctx, want map[string]bool) {
 		}
 		return nil, false
 	}
+	// the open record is only touched where one is open
+	x.Hooks.Deref = func(x *absint.Exec, s *absint.State, in ssa.Instruction, ptr absint.Value) {
+		if !frameInPkg(s, parserPkg) {
+			return
+		}
+		isNode := false
+		if nv, ok := curNode(s); ok && nv != nil && nv.Key() == ptr.Key() {
+			isNode = true
+		}
+		if cst, ok := ptr.(absint.Const); ok && cst.Nil {
+			report("C08-R1", "nil-record", c.P.Pos(in.Pos()), "the parser dereferences a nil record (no heading has been read yet on this path: events [%s], line class first=%s): a file that starts with an indented line crashes every command", s.Data["ev"], s.Data["first"])
+			return
+		}
+		if isNode && nilnessOf(x, s, ptr) != "nonnil" {
+			report("C08-R1", "nil-record", c.P.Pos(in.Pos()), "the parser dereferences the open record on a path that has not established that one is open (events [%s], first=%s)", s.Data["ev"], s.Data["first"])
+		}
+	}
 	metaCells := map[string]bool{}
 	x.Hooks.Store = func(x *absint.Exec, s *absint.State, in *ssa.Store, addr, val absint.Value) {
 		p, ok := addr.(absint.Ptr)
